@@ -337,9 +337,9 @@ PROPS["C06"] = dict(
                  "Readdir order is arbitrary: exact grouping is not compared when two names differ only in a digit-run length"],
 )
 PROPS["C07"] = dict(
-    n_quick=1500, n_thorough=20000, classify=lambda op, i, m: "find:" + ("found" if "found=1" in m else ("none" if "found=0" in m else "error")) + ":strict" + op.split(" ")[2],
+    n_quick=1500, n_thorough=20000, classify=lambda op, i, m: "find:" + ("found" if "found=1" in m else ("none" if "found=0" in m else "error")) + ":opts" + op.split(" ")[2],
     timeout=1200,
-    rule="op disk.find: FindSequenceOnDiskPad(pattern, style, StrictPadding?) against a materialised directory holding a target "
+    rule="op disk.find: FindSequenceOnDiskPad(pattern, style, StrictPadding? SingleFiles?) against a materialised directory holding a target "
          "sequence plus adversarial siblings (base+ext with nothing between, overlapping prefix/suffix, text / range-like / "
          "'+5' / overflowing / '-' middles, other widths, negative frames, links, sub-directories); patterns over 14 pad / "
          "range / concrete-frame forms x 7 basenames x 5 extensions; observed: result, its paths, existence of every path on "
